@@ -72,6 +72,28 @@ theorem goBetween_iff {n i k j : Nat} (hi : i < n) (hk : k < n) (hj : j < n) :
 theorem dist_add {n a b c : Nat} (ha : a < n) (hb : b < n) (hc : c < n)
     (h : dist n a b ≤ dist n a c) : dist n a c = dist n a b + dist n b c := by grind [dist]
 
+/-- four small facts about positions on the ring, kept free of any other
+hypotheses so that their proof terms stay small. -/
+theorem cyc_next {n i0 i j j' : Nat} (h1 : i0 < n) (h3 : i < n) (h4 : j < n) (hn : j' < n)
+    (h5 : dist n i0 i ≤ dist n i0 j) (hd : dist n i0 j' = dist n i0 j + 1) :
+    dist n i j' = dist n i j + 1 := by grind [dist]
+
+theorem cyc_inside {n x p h : Nat} (hp : p < n) (hx : x < n) (hh : h < n)
+    (hlt : dist n h x < dist n h p) (hb1 : 0 < dist n x h) (hb2 : dist n x h ≤ dist n x p) : False := by
+  grind [dist]
+
+theorem cyc_beyond {n x p j j' h : Nat} (hp : p < n) (hx : x < n) (hh : h < n) (hj : j < n) (hj' : j' < n)
+    (hlt : dist n h x < dist n h p) (hr : ¬ (0 < dist n x p ∧ dist n x p ≤ dist n x j))
+    (hpx : p ≠ x) (hpj : p ≠ j') (hdi : dist n x j' = dist n x j + 1) :
+    dist n h j' < dist n h p := by grind [dist]
+
+theorem cyc_moved {n i x j' h : Nat} (hi : i < n) (hx : x < n) (hh : h < n) (hj' : j' < n)
+    (hlt : dist n h x < dist n h i) (hb : ¬ (0 < dist n i h ∧ dist n i h ≤ dist n i j')) (hij : i ≠ j') :
+    dist n h x < dist n h j' := by grind [dist]
+
+theorem cyc_advance {n c x : Nat} (hc : c < n) (hx : x < n) (hxc : x ≠ c) :
+    dist n (next n c) x + 1 = dist n c x := by grind [dist, next]
+
 /-! ### the invariant -/
 
 /-- `I₁ ∧ I₂ ∧ free slot` of Appendix A.1 for a slot array and an index function. -/
@@ -476,8 +498,7 @@ theorem bs_next {idx : Nat → Nat → Nat} {n : Nat} {a : Slots V} {i0 e0 i j :
   have hlt := dist_lt h1 h2
   have hn : next n j < n := next_lt (by omega)
   have hd : dist n i0 (next n j) = dist n i0 j + 1 := dist_next h1 h4 (by omega)
-  refine ⟨hn, hd, ?_⟩
-  grind [dist]
+  exact ⟨hn, hd, cyc_next h1 h3 h4 hn h5 hd⟩
 
 theorem bs_done {idx : Nat → Nat → Nat} {n : Nat} {a : Slots V} {i0 e0 i j : Nat} (hidx : IdxOk idx)
     (I : BSInv idx n a i0 e0 i j) (hz : key a (next n j) = 0) : BSPost idx n a a i0 e0 := by
@@ -492,14 +513,11 @@ theorem bs_done {idx : Nat → Nat → Nat} {n : Nat} {a : Slots V} {i0 e0 i j :
     have h3 := I.hi; have h4 := I.hj
     by_cases hr : 0 < dist n x p ∧ dist n x p ≤ dist n x j
     · obtain ⟨_, hb1, hb2⟩ := I.range p hp hr.1 hr.2
-      generalize idx n (key a p) = h at *
-      grind [dist]
+      exact cyc_inside hp hx hh hlt hb1 hb2
     · have hpi : p ≠ x := by intro h; subst h; exact hkp I.hole
       have hpj : p ≠ next n j := by intro h; subst h; exact hkp hz
-      have : dist n (idx n (key a p)) (next n j) < dist n (idx n (key a p)) p := by
-        generalize idx n (key a p) = h at *
-        generalize next n j = j' at *
-        grind [dist]
+      have : dist n (idx n (key a p)) (next n j) < dist n (idx n (key a p)) p :=
+        cyc_beyond hp hx hh h4 hn hlt hr hpi hpj hdi
       rcases I.pathH p hp hkp (next n j) hn this with h | h
       · exact h hz
       · rw [h, dist_self] at hdi; omega
@@ -567,11 +585,8 @@ theorem bs_move {idx : Nat → Nat → Nat} {n : Nat} {a : Slots V} {i0 e0 i j :
           subst hpi
           have hxp : x ≠ p := by intro h; subst h; omega
           rw [if_neg hxp]
-          have hlt' : dist n (idx n (key a (next n j))) x < dist n (idx n (key a (next n j))) (next n j) := by
-            have h3 := I.hi
-            generalize idx n (key a (next n j)) = h at *
-            generalize next n j = j' at *
-            grind [dist]
+          have hlt' : dist n (idx n (key a (next n j))) x < dist n (idx n (key a (next n j))) (next n j) :=
+            cyc_moved I.hi hx hh hn hlt hb hij
           rcases I.pathH (next n j) hn hnz x hx hlt' with h | h
           · exact h
           · exact absurd h hxp
@@ -1504,8 +1519,8 @@ theorem evictLoop_complete {idx : Nat → Nat → Nat} (hidx : IdxOk idx) (skip 
         by_cases hxc : x = c
         · rw [hxc]; exact hk
         · apply hscan x hx
-          have : dist m.data.size (next m.data.size c) x + 1 = dist m.data.size c x := by
-            grind [dist, next]
+          have : dist m.data.size (next m.data.size c) x + 1 = dist m.data.size c x :=
+            cyc_advance hc hx hxc
           omega
       · rw [if_neg hk]
         have hk0 : key m.data c ≠ 0 := fun h => hk (Or.inl h)
